@@ -288,7 +288,57 @@ def refusal_precedes_queueing(chk: Check, repo: Repo, mr) -> None:
     chk.floor("setters that queue telegrams", n_funcs, 40)
 
 
+def configured_length_fits_a_frame(chk: Check, repo: Repo) -> None:
+    """A payload whose size comes from the object's configuration rather than from the value (`int.to_bytes(length=
+    self.<attr>)` in a remote value's to_knx) is built only where that length is known to fit a frame: a comparison that
+    bounds it by at most MAX_NPDU_LENGTH - 1 (APCI octet + payload <= 254) and from below by 0 holds at the construction.
+    (Payloads sized by their DPT class are bounded by the class constant; raw lists of the helpers by _parse_payload.)"""
+    limit = repo.module_const("xknx.cemi.const", "MAX_NPDU_LENGTH")
+    n_sites = 0
+    for f in repo.all_functions():
+        if not f.module.name.startswith("xknx.remote_value") or f.name != "to_knx":
+            continue
+        sites = [c for c in calls(f.node) if isinstance(c.func, ast.Attribute) and c.func.attr == "to_bytes" and any(k.arg == "length" and ast.unparse(k.value).startswith("self.") for k in c.keywords)]
+        if not sites:
+            continue
+        cfg = CFG(f.node)
+        mf = cfg.must_facts()
+        for c in sites:
+            n_sites += 1
+            attr = next(ast.unparse(k.value) for k in c.keywords if k.arg == "length")
+            node = next((n for n in cfg.nodes if n.ast is not None and n.kind == "stmt" and any(y is c for y in ast.walk(n.ast))), None)
+            upper = lower = None
+            for t, v in (mf[node.id] if node is not None else ()):
+                e = ast.parse(t, mode="eval").body
+                if not isinstance(e, ast.Compare):
+                    continue
+                terms = [e.left] + list(e.comparators)
+                if len(e.ops) > 1 and not v:
+                    continue  # the negation of a chain says nothing about one link
+                for i, op in enumerate(e.ops):
+                    l_, r_ = terms[i], terms[i + 1]
+                    for x_, y_, flip in ((l_, r_, False), (r_, l_, True)):
+                        if ast.unparse(x_) != attr:
+                            continue
+                        b_ = repo.fold(y_, f.module, f.cls)
+                        if not isinstance(b_, int):
+                            continue
+                        o = type(op)
+                        if flip:
+                            o = {ast.Lt: ast.Gt, ast.Gt: ast.Lt, ast.LtE: ast.GtE, ast.GtE: ast.LtE}.get(o, o)
+                        if not v:
+                            o = {ast.Lt: ast.GtE, ast.Gt: ast.LtE, ast.LtE: ast.Gt, ast.GtE: ast.Lt}.get(o)
+                        if o is ast.Lt: upper = min(upper, b_ - 1) if upper is not None else b_ - 1
+                        elif o is ast.LtE: upper = min(upper, b_) if upper is not None else b_
+                        elif o is ast.Gt: lower = max(lower, b_ + 1) if lower is not None else b_ + 1
+                        elif o is ast.GtE: lower = max(lower, b_) if lower is not None else b_
+            ok = isinstance(limit, int) and upper is not None and upper <= limit - 1 and lower is not None and lower >= 0
+            chk.ob("configured-payload-length-fits-a-frame", f.site(c), ok, f"{f.qualname}: `{ast.unparse(c)[:60]}` is reached only with {lower} <= {attr} <= {upper} (frame limit {limit} - 1)" if ok else f"{f.qualname}: `{ast.unparse(c)[:60]}` builds a payload of {attr} octets without bounding it ({lower}..{upper}): a configured length above {limit} - 1 is accepted and queued and fails in CEMIFrame.to_knx, a negative one leaves as ValueError", key=f"configured-length|{f.qualname}")
+    chk.floor("payloads sized by configuration", n_sites, 1)
+
+
 def run(chk: Check, repo: Repo) -> None:
+    configured_length_fits_a_frame(chk, repo)
     inv = ctor_invariant(chk, repo)
     mr = engine(repo)
     reason = "the payload constructor left every element in 0..255 (obligation payload-constructor-establishes-octet-range)"
